@@ -10,6 +10,10 @@ import (
 type xof struct {
 	impl blake2s.XOF
 	seed []byte
+	// seedKey is the part of the seed that keys the hash; Reset needs it
+	// to rebuild the initial state once Reseed has replaced impl.
+	seedKey  []byte
+	reseeded bool
 	// key is here to not make excess garbage during repeated calls
 	// to XORKeyStream.
 	key []byte
@@ -37,7 +41,10 @@ func New(seed []byte) kyber.XOF {
 	seedCopy := make([]byte, len(seed2))
 	copy(seedCopy, seed2)
 
-	return &xof{impl: b, seed: seedCopy}
+	keyCopy := make([]byte, len(seed1))
+	copy(keyCopy, seed1)
+
+	return &xof{impl: b, seed: seedCopy, seedKey: keyCopy}
 }
 
 func (x *xof) Clone() kyber.XOF {
@@ -71,10 +78,21 @@ func (x *xof) Reseed() {
 		panic("y could not be casted to XOF")
 	}
 	x.impl = yXof.impl
+	x.reseeded = true
 }
 
 func (x *xof) Reset() {
-	x.impl.Reset()
+	if x.reseeded {
+		// impl is keyed by the reseed key: go back to the one keyed by the seed
+		b, err := blake2s.NewXOF(blake2s.OutputLengthUnknown, x.seedKey)
+		if err != nil {
+			panic("blake2s.NewXOF should not return error: " + err.Error())
+		}
+		x.impl = b
+		x.reseeded = false
+	} else {
+		x.impl.Reset()
+	}
 	_, _ = x.impl.Write(x.seed)
 }
 
